@@ -542,18 +542,23 @@ P12_Initiate == At("I12") /\ Apply(pos[2], I12(pos[2], mem[pos[2]]))
 \* adversary step overwrites it)
 OrderSensitive == StageName \in {"R3", "R10"}
 
+\* member h receives the messages of the current state, senders in the order o
+ReceiveWith(h, o) ==
+    LET inbox == Concat(o, out)
+        acc == SelectSeq(inbox, LAMBDA x : Accept(h, mem[h], x))
+        mm == [mem EXCEPT ![h].rcv = acc]
+    IN /\ mem' = mm
+       /\ pos' = NextPos(pos[1], h, mm, corrupt)
+       /\ dord' = (IF OrderSensitive THEN o ELSE <<>>)
+       /\ UNCHANGED <<cls, fixes, corrupt, out, budget, plan>>
+
+IsRecvStage == StageName \in {"R1", "R3", "R4", "R7", "R8", "R10"}
+
 Receive ==
-    /\ StageName \in {"R1", "R3", "R4", "R7", "R8", "R10"}
+    /\ IsRecvStage
     /\ pos[2] \in Honest
-    /\ LET h == pos[2] IN
-       \E o \in (IF OrderSensitive THEN Orders(h) ELSE {Ascending(Members \ {h})}) :
-          LET inbox == Concat(o, out)
-              acc == SelectSeq(inbox, LAMBDA x : Accept(h, mem[h], x))
-              mm == [mem EXCEPT ![h].rcv = acc]
-          IN /\ mem' = mm
-             /\ pos' = NextPos(pos[1], h, mm, corrupt)
-             /\ dord' = (IF OrderSensitive THEN o ELSE <<>>)
-             /\ UNCHANGED <<cls, fixes, corrupt, out, budget, plan>>
+    /\ \E o \in (IF OrderSensitive THEN Orders(pos[2]) ELSE {Ascending(Members \ {pos[2]})}) :
+          ReceiveWith(pos[2], o)
 
 Adversary ==
     /\ IsAdvStage(pos[1])
